@@ -15,7 +15,7 @@ PROP = 'C12'
 LEVEL = 'exploration'
 STEP_UNIT = 'producer pulls (successful next()/index productions)'
 CASE_TIMEOUT = 60
-TIERS = {'quick': (300000, 150), 'thorough': (10000000, 1800)}
+TIERS = {'quick': (300000, 150), 'thorough': (4000000, 1800)}
 PROBES = ['sized_iterable_producer', 'false_reverse_expr',
           'previous_batches_evaluated', 'unbounded_rendered', 'fault_fired', 'window_past_end',
           'lookahead_probe_reached', 'else_rendered', 'prev_lookback_overpull',
